@@ -26,6 +26,15 @@ AddC(a, b, c) ==
        IN  <<x % Base>> \o AddC(Rest(a), Rest(b), x \div Base)
 Add(a, b) == AddC(a, b, 0)
 
+(* a - b for a >= b *)
+RECURSIVE SubB(_, _, _)
+SubB(a, b, borrow) ==
+  IF a = <<>> THEN <<>>
+  ELSE LET x == a[1] - Hd(b) - borrow
+       IN  IF x < 0 THEN <<x + Base>> \o SubB(Rest(a), Rest(b), 1)
+           ELSE <<x>> \o SubB(Rest(a), Rest(b), 0)
+Sub(a, b) == Strip(SubB(a, b, 0))
+
 (* a * m for a small m (m < Base, so every intermediate fits 32 bits) *)
 RECURSIVE MulSmallC(_, _, _)
 MulSmallC(a, m, c) ==
